@@ -21,12 +21,10 @@ if TYPE_CHECKING:
 def _uniqify_labels(arr, labels: list[str]) -> np.ndarray:
     """Helper function to uniqify labels."""
     unique_labels = list(set(labels))
+    # mapping[0] is for NOSITE (-1), mapping[k + 1] for site k
     mapping = np.array([-1] + [unique_labels.index(label) for label in labels])
 
-    palette = np.arange(len(labels), dtype=int)
-
-    index = np.digitize(arr, palette, right=True)
-    return mapping[index]
+    return mapping[np.asarray(arr) + 1]
 
 
 def _get_states(labels: list[str]) -> dict[int, str]:
